@@ -37,6 +37,7 @@ struct Profile {
   unsigned ops_per_size = 1;
   bool big_strings = false;
   bool force_compression = false;
+  bool enum_mode = false;         // exhaustive small-scope enumeration (C12): fixed tiny alphabet, no other choices
 };
 
 // ---- reference exporter model ----------------------------------------------------------------
@@ -221,10 +222,11 @@ static void hist_case(Case& cs, const Profile& pf) {
   std::ostringstream trace;   // rendering of the history (sample / failure report)
 
   // ---- configuration
-  gen::Pools pools = gen::make_pools(c);
-  gen::TimeCtx tc = gen::gen_timectx(c);
+  gen::Pools pools;
+  gen::TimeCtx tc;
   gen::RecOpts ro;
-  ro.pres = pf.pres_fixed ? pf.pres_fixed : (unsigned)c.pick<int>({4, 1, 7, 2, 6, 8});
+  if (!pf.enum_mode) { pools = gen::make_pools(c); tc = gen::gen_timectx(c); }
+  ro.pres = pf.enum_mode ? 4 : pf.pres_fixed ? pf.pres_fixed : (unsigned)c.pick<int>({4, 1, 7, 2, 6, 8});
   ro.big = pf.big_strings ? 5000 : 300;
   gen::BpOpts bo;
   bo.full_hint_modes = pf.hint_modes;
@@ -232,16 +234,31 @@ static void hist_case(Case& cs, const Profile& pf) {
   bo.allow_empty_cp = pf.empty_structs;
   if (pf.small_blocks) bo.max_items = {0, 1, 2, 3, 5};
   RefExporter ref;
-  unsigned nsets = (unsigned)c.range(pf.min_sets, pf.max_sets);
-  for (unsigned i = 0; i < nsets; i++) ref.sets.push_back(gen::gen_bp(c, bo));
-  int comp = pf.force_compression ? 1 + (int)c.range(0, 1) : (int)c.range(0, 2);
-  int kind = (int)c.range(0, 1);
-  unsigned nops = (unsigned)c.range(1, 4 + cs.size * pf.ops_per_size);
+  int comp, kind;
+  unsigned nops;
+  if (pf.enum_mode) {
+    // configuration = first choice (sharding dimension): max_block_items in {0,1,2,3} x AEC hint x MM hint
+    uint64_t cfg = c.range(0, 15);
+    M::BlockP b0;
+    b0.sp.hints.qr = gen::QR_ALL; b0.sp.hints.sig = gen::SIG_ALL; b0.sp.hints.rr = 3;
+    b0.sp.hints.other = (((cfg >> 2) & 1) ? (1u << M::OTHER_AEC_BIT) : 0) | (((cfg >> 3) & 1) ? (1u << M::OTHER_MM_BIT) : 0);
+    b0.sp.max_items = cfg & 3;
+    M::BlockP b1 = b0;
+    b1.sp.max_items = (cfg & 3) == 2 ? 3 : 2;
+    ref.sets.push_back(b0); ref.sets.push_back(b1);
+    comp = 0; kind = 0; nops = cs.size;
+  } else {
+    unsigned nsets = (unsigned)c.range(pf.min_sets, pf.max_sets);
+    for (unsigned i = 0; i < nsets; i++) ref.sets.push_back(gen::gen_bp(c, bo));
+    comp = pf.force_compression ? 1 + (int)c.range(0, 1) : (int)c.range(0, 2);
+    kind = (int)c.range(0, 1);
+    nops = (unsigned)c.range(1, 4 + cs.size * pf.ops_per_size);
+  }
   trace << "comp=" << comp << " kind=" << (kind ? "fd" : "name") << " pres=" << ro.pres << "/8 " << describe_sets(ref.sets) << "\n";
 
   M::Preamble mpre;
   mpre.bps = ref.sets;
-  if (c.coin()) mpre.priv.set(c.range(0, 255)); // private version present / absent
+  if (!pf.enum_mode && c.coin()) mpre.priv.set(c.range(0, 255)); // private version present / absent
   mpre.major = 1; mpre.minor = 0;
   CDNS::FilePreamble fp = adapt::lib_preamble(mpre);
 
@@ -312,19 +329,28 @@ static void hist_case(Case& cs, const Profile& pf) {
   for (unsigned step = 0; step < nops; step++) {
     unsigned W[] = {pf.w_qr, pf.w_aec, pf.w_mm, pf.w_write, pf.w_ext, pf.w_rotate, pf.w_addbp, pf.w_setactive, pf.w_counters};
     unsigned tot = 0; for (unsigned w : W) tot += w;
-    uint64_t r = c.range(0, tot - 1);
-    int op = 0; while (r >= W[op]) { r -= W[op]; op++; }
+    int op = 0;
+    int esym = -1;   // enumeration alphabet: 0 qr storable, 1 qr unstorable, 2 aec key 1, 3 aec key 2, 4 mm, 5 write_block, 6 set_active(other), 7 counters
+    if (pf.enum_mode) {
+      esym = (int)c.range(0, 7);
+      static const int OPMAP[8] = {0, 0, 1, 1, 2, 3, 7, 8};
+      op = OPMAP[esym];
+    } else {
+      uint64_t r = c.range(0, tot - 1);
+      while (r >= W[op]) { r -= W[op]; op++; }
+    }
     uint64_t tps = (uint64_t)ref.cur().sp.tps;
     const M::Hints& h = ref.cur().sp.hints;
     bool rot_now = false;
     switch (op) {
       case 0: {  // buffer_qr
-        Fields f = gen::gen_qr(c, pools, tc, tps, ro);
+        Fields f;
+        if (pf.enum_mode) { if (esym == 0) f[M::Q_TXID] = M::Val::Int(step + 1); } else f = gen::gen_qr(c, pools, tc, tps, ro);
         Fields p = M::project_qr(f, h);
         bool storable = !p.empty();
         if (!storable && ref.maxi() == 0 && ref.active != ref.cur_bp) { cs.st.cnt("excluded:max0_unstorable_rearm"); break; }
         M::StatsM s;
-        if (storable || ref.maxi() != 0) s = gen::gen_stats(c, pf.empty_structs); else cs.st.cnt("excluded:stats_on_unstorable_max0");
+        if (pf.enum_mode) {} else if (storable || ref.maxi() != 0) s = gen::gen_stats(c, pf.empty_structs); else cs.st.cnt("excluded:stats_on_unstorable_max0");
         if (s.present && s.f.empty()) had_empty_struct = true;
         trace << "buffer_qr " << M::show_fields(f, M::QF_NAME).substr(0, 300) << (s.present ? " stats=" + s.show() : "") << (storable ? "" : " [unstorable]");
         size_t ret = ex->buffer_qr(adapt::generic_qr(f), adapt::lib_stats(s));
@@ -335,10 +361,11 @@ static void hist_case(Case& cs, const Profile& pf) {
         break;
       }
       case 1: {  // buffer_aec
-        M::AecKey k = gen::gen_aec(c, pools);
+        M::AecKey k;
+        if (pf.enum_mode) { k.type = esym == 2 ? 1 : 2; k.ip = std::string("\x0a\x00\x00\x01", 4); } else k = gen::gen_aec(c, pools);
         bool enabled = (h.other >> M::OTHER_AEC_BIT) & 1;
         M::StatsM s;
-        if (enabled) s = gen::gen_stats(c, pf.empty_structs);   // precondition 4: no statistics on a disabled record kind
+        if (enabled && !pf.enum_mode) s = gen::gen_stats(c, pf.empty_structs);   // precondition 4: no statistics on a disabled record kind
         if (s.present && s.f.empty()) had_empty_struct = true;
         trace << "buffer_aec " << k.key() << (s.present ? " stats=" + s.show() : "") << (enabled ? "" : " [disabled]");
         size_t ret = ex->buffer_aec(adapt::generic_aec(k), adapt::lib_stats(s));
@@ -347,12 +374,13 @@ static void hist_case(Case& cs, const Profile& pf) {
         break;
       }
       case 2: {  // buffer_mm
-        Fields f = gen::gen_mm(c, pools, tc, tps, ro);
+        Fields f;
+        if (pf.enum_mode) f[M::M_CLIENT_PORT] = M::Val::Int(step + 1); else f = gen::gen_mm(c, pools, tc, tps, ro);
         bool enabled = (h.other >> M::OTHER_MM_BIT) & 1;
         bool storable = enabled && !f.empty();
         if (enabled && !storable && ref.maxi() == 0 && ref.active != ref.cur_bp) { cs.st.cnt("excluded:max0_unstorable_rearm"); break; }
         M::StatsM s;
-        if (enabled && (storable || ref.maxi() != 0)) s = gen::gen_stats(c, pf.empty_structs);
+        if (!pf.enum_mode && enabled && (storable || ref.maxi() != 0)) s = gen::gen_stats(c, pf.empty_structs);
         if (s.present && s.f.empty()) had_empty_struct = true;
         trace << "buffer_mm " << M::show_fields(f, M::MF_NAME).substr(0, 200) << (s.present ? " stats=" + s.show() : "") << (enabled ? "" : " [disabled]");
         size_t ret = ex->buffer_mm(adapt::generic_mm(f), adapt::lib_stats(s));
@@ -429,8 +457,8 @@ static void hist_case(Case& cs, const Profile& pf) {
       case 7: {  // set_active_block_parameters (valid or out of range)
         OutM& o = ref.outs.back();
         size_t limit = o.blocks.empty() ? ref.sets.size() : o.nsets_header;   // precondition 1
-        bool bad = c.range(0, 7) == 7;
-        uint64_t idx = bad ? ref.sets.size() + c.range(0, 2) : c.range(0, limit - 1);
+        bool bad = pf.enum_mode ? false : c.range(0, 7) == 7;
+        uint64_t idx = pf.enum_mode ? (limit >= 2 ? 1 - ref.active : 0) : bad ? ref.sets.size() + c.range(0, 2) : c.range(0, limit - 1);
         bool ok = ex->set_active_block_parameters((CDNS::index_t)idx);
         trace << "set_active_block_parameters(" << idx << ") -> " << ok << "\n";
         if (ok != !bad) cx.fail(O_C12, "c12.set_active_result", "set_active_block_parameters(" + std::to_string(idx) + ") returned " + std::to_string(ok) + " with " + std::to_string(ref.sets.size()) + " sets");
@@ -443,7 +471,7 @@ static void hist_case(Case& cs, const Profile& pf) {
     last_was_rot = rot_now;
   }
   // documented usage: the application writes the buffered block before destroying the exporter (profile choice)
-  bool final_write = c.coin();
+  bool final_write = pf.enum_mode ? false : c.coin();
   if (final_write) {
     size_t ret = ex->write_block();
     bool wrote = ref.write_block();
@@ -636,13 +664,14 @@ static Profile P_C04() { Profile p; p.name = "c04"; p.oracles = O_C04; p.pres_fi
 static Profile P_C10() { Profile p = P_C02(); p.name = "c10"; p.oracles = O_C10; p.big_strings = true; return p; }
 static Profile P_C11() { Profile p; p.name = "c11"; p.oracles = O_C11; p.small_blocks = true; p.hint_modes = false; p.w_write = 1; p.ops_per_size = 2; return p; }
 static Profile P_C12() { Profile p; p.name = "c12"; p.oracles = O_C12; p.small_blocks = true; p.min_sets = 2; p.w_setactive = 3; p.w_counters = 2; p.w_aec = 6; p.w_mm = 5; p.w_write = 2; p.ops_per_size = 2; p.any_tps = false; return p; }
+static Profile P_C12E() { Profile p = P_C12(); p.name = "c12enum"; p.enum_mode = true; return p; }
 static Profile P_C13() { Profile p; p.name = "c13"; p.oracles = O_C13; p.w_rotate = 5; p.w_addbp = 2; p.w_setactive = 2; p.w_ext = 1; p.small_blocks = true; return p; }
 static Profile P_C14() { Profile p = P_C02(); p.name = "c14"; p.oracles = O_C14 | O_C01 | O_C02 | O_C10; p.big_strings = true; p.force_compression = true; p.w_rotate = 3; return p; }
 static Profile P_C17() { Profile p; p.name = "c17"; p.oracles = O_C17 | O_C01; p.hint_modes = false; p.w_mm = 6; p.w_aec = 1; p.pres_fixed = 5; return p; }
 
 int main(int argc, char** argv) {
   Registry r;
-  static Profile ps[] = {P_C01(), P_C01BIG(), P_C02(), P_C04(), P_C10(), P_C11(), P_C12(), P_C13(), P_C14(), P_C17()};
+  static Profile ps[] = {P_C01(), P_C01BIG(), P_C02(), P_C04(), P_C10(), P_C11(), P_C12(), P_C12E(), P_C13(), P_C14(), P_C17()};
   for (auto& p : ps) { const Profile* pp = &p; r.add(std::string("hist_") + p.name, [pp](Case& cs) { hist_case(cs, *pp); }); }
   return harness_main(argc, argv, r);
 }
